@@ -13,8 +13,8 @@
 From Coq Require Import String.
 From Statham.Model Require Import Str Json Elem PyNum Validate Equality SerJson Spec6 Tables.
 From Statham.Generated Require Gen_signatures Gen_type_mapping.
-From Statham.Model Require Import Plain SerFrag Resolve RunSer ClsFrag.
-From Statham.Proofs Require Import Agree_tables SerJsonProof JsonEqProof C01Vm C03Meaning C03Resolve C03Classes C03Doc.
+From Statham.Model Require Import Plain SerFrag Resolve RunSer ClsFrag DefsFrag.
+From Statham.Proofs Require Import Agree_tables SerJsonProof JsonEqProof C01Vm C03Meaning C03Resolve C03Classes C03Doc C03Defs C03DefsDoc.
 Local Open Scope string_scope.
 Local Open Scope list_scope.
 
@@ -123,5 +123,50 @@ Example C03_classes_inhabited :
     accepts no_oracle exc_root (JArr [JObj [(s_ "f", JObj [(s_ "a", JStr (s_ "x"))])]; JObj [(s_ "a", JStr (s_ "y")); (s_ "n", JInt 2)]]) = true /\
     accepts no_oracle exc_root (JArr [JObj []; JObj [(s_ "a", JStr (s_ "y"))]]) = false
   | None => False
+  end.
+Proof. vm_compute. repeat split; reflexivity. Qed.
+
+(* ---- CALLER-SUPPLIED definitions ----------------------------------------------------------------
+   serialize_json(elements..., definitions={key: element}) replaces every sub-element that is == to a
+   definition by {"$ref": "#/definitions/key"} (_from_definitions: the first equal definition) and adds
+   the definitions' own documents.  The emitted document, once resolved, still accepts exactly what the
+   primary tree accepts: the replaced sub-element and the definition it now points to are equal, equal
+   trees have in-place documents of the same meaning (C17_equal_inplace_documents_same_meaning), and
+   v6 is a congruence in the sub-schema positions (the two-serializer form of C17Classes.ek_cong).
+   Premise (DefsFrag.cd_okb, executable, counted per run as code 12): the primary and every definition
+   in the fragment of C17's class congruence (so no float multipleOf: finding K17), every class met
+   below a node and every definition present under its name / key in the emitted "definitions", and no
+   definition deeper than a node it equals. *)
+Theorem C03_meaning_definitions : forall O cd classes fuel e,
+  cd_okb cd classes fuel e = true -> e <> ENothing ->
+  exists n0, forall n, n0 <= n ->
+    exists R, resolve_doc n (ser_doc cd e classes) = Some R /\
+              forall v, jwf v -> om (build O e (Some v)) (v6 O WCode R v).
+Proof. exact doc_meaning_defs. Qed.
+Print Assumptions C03_meaning_definitions.
+
+(* non-vacuity: the array of exc_root with two caller definitions - a string schema that occurs inside
+   class Foo, and the integer schema with minimum written with another spelling of the same default-free
+   element; the premise holds, the emitted document really contains references to the definitions, it
+   resolves, and the verdicts agree *)
+Definition exd_defs : list (str * elem) :=
+  [(s_ "str", EK CString k0);
+   (s_ "cnt", EK CInteger (mkK (Some (JInt 1)) None None None (AddBool true) None None false None None None None None None None None None None None None None (AddBool true) None None None None None))].
+Example C03_definitions_inhabited :
+  cd_okb exd_defs [exc_bar; exc_foo] 20 exc_root = true /\
+  lookup (s_ "str") (defs_doc exd_defs [exc_bar; exc_foo]) = Some (JObj [(s_ "type", JStr (s_ "string"))]) /\
+  match resolve_doc 20 (ser_doc exd_defs exc_root [exc_bar; exc_foo]) with
+  | Some R =>
+    v6 no_oracle WCode R (JArr [JObj [(s_ "f", JObj [(s_ "a", JStr (s_ "x"))])]; JObj [(s_ "a", JStr (s_ "y")); (s_ "n", JInt 2)]]) = true /\
+    v6 no_oracle WCode R (JArr [JObj []; JObj [(s_ "a", JInt 3)]]) = false
+  | None => False
+  end /\
+  match lookup (s_ "definitions") (match ser_doc exd_defs exc_root [exc_bar; exc_foo] with JObj l => l | _ => [] end) with
+  | Some (JObj dfs) => match lookup (s_ "Foo") dfs with
+                       | Some (JObj foo) => match lookup (s_ "properties") foo with
+                                            | Some (JObj ps) => lookup (s_ "a") ps = Some (ref_to (s_ "str")) /\ lookup (s_ "n") ps = Some (ref_to (s_ "cnt"))
+                                            | _ => False end
+                       | _ => False end
+  | _ => False
   end.
 Proof. vm_compute. repeat split; reflexivity. Qed.
